@@ -82,14 +82,14 @@ def ind_scenario(rng, fid, fam, cfg, n, style, twins=("batch",), tf=None, extra=
     st = make_stream(rng, n + extra, style, tf=tf, regular=regular)
     pre, chunks = compositions(rng, n, pre_choices, max_chunk)
     prog = prog_for(pre, chunks)
-    if not tf and not cfg.ctype and rng.random() < 0.12:
+    if not tf and not cfg.timeframe and not cfg.ctype and rng.random() < 0.12:
         # the newest candle keeps trading: the caller updates it in place, then refreshes its reading
         o, h, l, c, v = st[n - 1][1:]
         c2 = c + rng.choice([1, 2, -1])
         prog.append(("poke", -1, (o, max(h, c2, o), min(l, c2, o), c2, v + rng.choice([0, 1, 3]))))
         prog.append(("calculate_index", "", -1, "fresh"))
         twins = ()
-    if not tf and not cfg.ctype and not reindex and rng.random() < 0.12 and n >= 12 \
+    if not tf and not cfg.timeframe and not cfg.ctype and not reindex and rng.random() < 0.12 and n >= 12 \
             and not any(x[0] == "poke" for x in prog):
         # an older candle is corrected in place (a late trade report), then every reading from there on is
         # recomputed with calculate_index(start, end): all of them, whatever values they replace
